@@ -858,6 +858,7 @@ var c10LabelVals = []string{"x", "x-1", "ax", "web"}
 var c10LabelSels = []string{"", "", "", "app=x", "app==x", "app!=x", "app", "!app", "app=x,tier=web", "tier=web", "x", "app=ax", "app = x", "app in (x)", "app=x,"}
 
 func pickN(r *Rng, l []string) string { return l[r.Intn(len(l))] }
+func pickInt(r *Rng, l []int) int      { return l[r.Intn(len(l))] }
 
 // ---------- resource generator (block YAML text) ----------
 
@@ -1597,7 +1598,7 @@ func c10PathsFor(r *Rng, x c10Res, target bool) []string {
 }
 
 func c10GenRepl(r *Rng, l []c10Res) c10Repl {
-	if r.Chance(25) || len(l) == 0 {
+	if r.Chance(12) || len(l) == 0 {
 		return c10GenReplRandom(r, l)
 	}
 	rp := c10Repl{}
@@ -1612,8 +1613,8 @@ func c10GenRepl(r *Rng, l []c10Res) c10Repl {
 	if r.Chance(85) {
 		rp.Source.FieldPath = pickN(r, c10PathsFor(r, src, false))
 	}
-	if r.Chance(30) {
-		rp.Source.Options = &c10Opts{Delimiter: pickN(r, []string{":", "/", ".", "-"}), Index: r.Intn(3)}
+	if r.Chance(22) {
+		rp.Source.Options = &c10Opts{Delimiter: pickN(r, []string{":", "/", ".", "-"}), Index: pickInt(r, []int{0, 0, 0, 0, 0, 0, 1, 1, 2, -1})}
 	}
 	nt := 1 + r.Intn(2)
 	for i := 0; i < nt; i++ {
@@ -1623,7 +1624,7 @@ func c10GenRepl(r *Rng, l []c10Res) c10Repl {
 		if r.Chance(70) {
 			s.Kind = tg.Kind
 		}
-		if r.Chance(60) {
+		if r.Chance(85) {
 			s.Name = tg.Name
 		}
 		if r.Chance(15) {
@@ -1660,6 +1661,14 @@ func c10GenRepl(r *Rng, l []c10Res) c10Repl {
 				t.Options.Index = r.Intn(5) - 1
 			}
 			t.Options.Create = r.Chance(55)
+		}
+		for _, fp := range t.FieldPaths {
+			if (strings.Contains(fp, "copied") || strings.Contains(fp, "spec.extra") || strings.Contains(fp, "[name=new]")) && r.Chance(85) {
+				if t.Options == nil {
+					t.Options = &c10Opts{}
+				}
+				t.Options.Create = true
+			}
 		}
 		rp.Targets = append(rp.Targets, t)
 	}
@@ -1746,6 +1755,19 @@ func c10EmitRepl(run *Run, c c10Case, resp c10ChildResp) {
 	}
 	orig, ok := coqNodes(nodes)
 	run.Count("repl", resp.Cls)
+	if resp.Cls == ClsErr {
+		m := resp.Msg
+		for _, k := range []string{"multiple matches", "nothing selected", "is missing for", "unable to find field", "unable to find or create", "delimiter option", "out of bounds", "must specify", "mutually exclusive", "error looking up", "wrong node kind", "selector", "previous"} {
+			if strings.Contains(m, k) {
+				m = k
+				break
+			}
+		}
+		if len(m) > 40 {
+			m = m[:40]
+		}
+		run.Count("repl_err", m)
+	}
 	tab := newPtab()
 	fields, prim := map[string]bool{}, false
 	lselOK := true
@@ -1924,15 +1946,76 @@ func runC10(run *Run, rng *Rng, tier string) error {
 		g := rng.Fork()
 		l := c10GenResList(g, 1+g.Intn(6), true)
 		name := pickN(g, c10Names)
-		if g.Chance(50) && len(l) > 0 {
+		if g.Chance(80) && len(l) > 0 {
 			name = l[g.Intn(len(l))].Name
+			cands := []string{}
+			for _, x := range l {
+				if x.Kind == "Deployment" || x.Kind == "StatefulSet" || x.Kind == "ReplicaSet" {
+					cands = append(cands, x.Name)
+					for _, p := range x.Prev {
+						cands = append(cands, p[0])
+					}
+				}
+			}
+			if len(cands) > 0 && g.Chance(80) {
+				name = pickN(g, cands)
+			}
 		}
 		cases = append(cases, c10Case{Kind: "replica", RName: name, RCount: int64(g.Intn(12)) - 1, Docs: c10Texts(l)})
 	}
 	for i := 0; i < 160*scale; i++ {
 		g := rng.Fork()
+		l := c10GenResList(g, 1+g.Intn(6), true)
 		s := c10GenSel(g)
-		cases = append(cases, c10Case{Kind: "select", Sel: &s, Docs: c10Texts(c10GenResList(g, 1+g.Intn(6), true))})
+		if len(l) > 0 && g.Chance(60) {
+			x := l[g.Intn(len(l))]
+			near := func(n string) string {
+				switch g.Intn(7) {
+				case 0:
+					return n + ".*"
+				case 1:
+					return n + "|ax"
+				case 2:
+					return ".*" + n
+				case 3:
+					return "(" + n + ")"
+				case 4:
+					return n + "?"
+				default:
+					return n
+				}
+			}
+			if s.Name != "" || g.Chance(50) {
+				s.Name = near(x.Name)
+				if len(x.Prev) > 0 && g.Chance(50) {
+					s.Name = near(x.Prev[0][0])
+				}
+			}
+			if s.Kind != "" {
+				s.Kind = near(x.Kind)
+			}
+			if s.Namespace != "" && g.Chance(70) {
+				ns := x.Namespace
+				if ns == "" {
+					ns = "default"
+				}
+				if len(x.Prev) > 0 && g.Chance(50) {
+					ns = x.Prev[0][1]
+				}
+				s.Namespace = near(ns)
+			}
+			if s.Group != "" && g.Chance(70) {
+				if i := strings.Index(x.APIVersion, "/"); i > 0 {
+					s.Group = near(x.APIVersion[:i])
+				} else {
+					s.Group = ""
+				}
+			}
+			if s.Lab != "" && len(x.Labels) > 0 && g.Chance(70) {
+				s.Lab = x.Labels[0][0] + pickN(g, []string{"=", "==", "!="}) + x.Labels[0][1]
+			}
+		}
+		cases = append(cases, c10Case{Kind: "select", Sel: &s, Docs: c10Texts(l)})
 	}
 	for i := 0; i < 80*scale; i++ {
 		g := rng.Fork()
